@@ -35,6 +35,44 @@ def hooks(sites):
     return LinHooks(real_dicts=(), vector_dicts=('potentials',), sites=sites)
 
 
+def feasibility_stop_report():
+    """"overlapping tables agree up to the feasibility tolerance the estimator enforces" (C18): in mirror_descent_auto the extra sweeps stop
+    exactly when the oracle's own feasibility measure of the CURRENT tables is below a numeric constant (whatever it is: that constant IS
+    the enforced tolerance), and the tables tested are the ones returned (no re-assignment of `mu` between the test and the `break`).
+    Decided on the text; another shape leaves the clause UNDECIDED."""
+    import ast, time
+    from .. import deductive, frontend
+    from ..vc import solver as S
+    rel, q = 'src/mbi/local_inference.py', 'LocalInference.mirror_descent_auto'
+    r = deductive.FunctionReport(rel, q + ' [extra sweeps stop on the oracle\'s feasibility measure of the current tables]')
+    t0 = time.time()
+    try:
+        fn, _src, sha = frontend.get_function(rel, q)
+        ok, why = False, 'no `if <oracle>.primal_feasibility(mu) < <constant>: break` found in a loop'
+        for loop in [n for n in ast.walk(fn) if isinstance(n, ast.For)]:
+            for st_ in loop.body:
+                if isinstance(st_, ast.If) and len(st_.body) == 1 and isinstance(st_.body[0], ast.Break) and isinstance(st_.test, ast.Compare) \
+                        and len(st_.test.ops) == 1 and isinstance(st_.test.ops[0], (ast.Lt, ast.LtE)) and isinstance(st_.test.comparators[0], ast.Constant) \
+                        and isinstance(st_.test.comparators[0].value, (int, float)) and isinstance(st_.test.left, ast.Call) \
+                        and ast.unparse(st_.test.left.func).endswith('.primal_feasibility') and len(st_.test.left.args) == 1:
+                    tested = ast.unparse(st_.test.left.args[0])
+                    returned = [ast.unparse(x.value.elts[-1]) for x in ast.walk(fn) if isinstance(x, ast.Return) and isinstance(x.value, ast.Tuple)]
+                    first = loop.body[0] is st_
+                    ok = first and returned and all(t == tested for t in returned)
+                    why = '' if ok else 'the tables tested (%s) are not the ones returned (%s), or are re-assigned before the test' % (tested, returned)
+        ob = S.Obligation('%s::%s/extra-sweeps-stop-when-the-returned-tables-pass-the-oracles-feasibility-test' % (rel, q), [], None, function='%s::%s' % (rel, q), kind='wiring')
+        ob.verdict = 'discharged' if ok else 'unknown'
+        ob.backend, ob.seconds, ob.reason = 'syntactic (AST match)', 0.0, why
+        ob.meta = {'base': ob.name}
+        r.obligations.append(ob)
+        r.sha = sha
+    except frontend.MissingAnchor as e:
+        r.undecided = 'anchor missing: %s' % e
+    r.vacuity = []
+    r.seconds = time.time() - t0
+    return r
+
+
 # variable_elimination_logspace (C02, the out-of-clique query path): eliminating z replaces the factors that mention z by the
 # log-sum-exp over z of their sum; the answer is the exponential of the remaining sum shifted to the requested total.
 VE_SITES = [
